@@ -26,6 +26,7 @@ class RefWorld:
 		self.sig_ids = []     # stored ids, file order
 		self.dir = None
 		self.decimal_query = None   # a 10-element set; some references are it minus j elements (distance exactly j/10)
+		self.near_query = None      # a 1001-element set; some references sit at two distinct distances from it less than 1e-6 apart
 		self.gdb = None
 		self.gs = None
 
@@ -57,7 +58,7 @@ def make_taxonomy(rng, n_roots, max_depth, max_taxa):
 	return taxa
 
 
-def build(ctx, rng, kspec, n_genomes, dirname='db', id_attr=None, n_pad=None, ties=False, fast_sigs=False):
+def build(ctx, rng, kspec, n_genomes, dirname='db', id_attr=None, n_pad=None, ties=False, fast_sigs=False, near_ties=False):
 	"""Create the world on disk under ctx.scratch/dirname. Returns RefWorld."""
 	from gambit.db.models import Base, Genome, ReferenceGenomeSet, AnnotatedGenome, Taxon
 	from gambit.sigs.base import SignatureArray, AnnotatedSignatures, SignaturesMeta, dump_signatures
@@ -96,6 +97,18 @@ def build(ctx, rng, kspec, n_genomes, dirname='db', id_attr=None, n_pad=None, ti
 				sig_sets[gi] = np.union1d(base, np.array([extra], dtype=np.uint64)).astype(np.uint64)
 			elif gi > 0 and r < 0.45:
 				sig_sets[gi] = sig_sets[rng.randrange(gi)].copy()
+	if fast_sigs and near_ties and min(4 ** kspec.k, 2 ** 40) >= 4096 and n_genomes >= 2:
+		# distinct distances closer than 1e-6: Jaccard 1000/2001 and 1001/2003 against one 1001-element query (they differ by
+		# 2.5e-7, four float32 steps); the order must still be by distance, not by position
+		universe = min(4 ** kspec.k, 2 ** 40)
+		pool = rng.sample(range(universe), 3003)
+		q, xa, xb = pool[:1001], pool[1001:2001], pool[2001:]
+		w.near_query = np.array(sorted(q), dtype=np.uint64)
+		far = np.array(sorted(q[1:] + xa), dtype=np.uint64)     # 1000 shared of 2001
+		near = np.array(sorted(q + xb), dtype=np.uint64)        # 1001 shared of 2003
+		slots = rng.sample(range(n_genomes), min(n_genomes, rng.randint(2, 5)))
+		for j, gi in enumerate(slots):
+			sig_sets[gi] = (far, near)[j % 2].copy() if rng.random() < 0.8 else (near, far)[j % 2].copy()
 	for gi in range(n_genomes):
 		r = rng.random()
 		if fast_sigs:
